@@ -106,6 +106,19 @@ def gen(ctx, n_sets, reads_per_set):
             if rng.random() < 0.1:
                 read = read.lower()
             reads.append(read)
+            if 0.7 <= mode < 0.8 or (occ and rng.random() < 0.08):
+                # a family of reads that differ only in where N stands for A: one look-up must not colour the next
+                t = list(occ)
+                pos = rng.sample(range(len(t)), min(len(t), rng.choice((1, 2, 2, 3))))
+                for i in pos:
+                    t[i] = "A"
+                for _ in range(rng.choice((2, 3))):
+                    v = list(t)
+                    for i in pos:
+                        if rng.random() < 0.5:
+                            v[i] = "N"
+                    v = "".join(v)
+                    reads.append((v + tail) if prefix else (tail + v))
         for read in reads:
             def res(cutter, perm):
                 try:
@@ -161,7 +174,25 @@ def run(ctx):
                         "the side conditions of the agreement / order clauses are evaluated in the specification, not assumed by the generator"]
 
 
+def reobserve(readable):
+    """Re-run the look-ups of a stored observation against the current tree."""
+    from cutadapt.modifiers import AdapterCutter
+    prefix = readable["kind"] == "anchored 5'"
+    specs = [dict(seq=a[0], k=a[1], rate=(a[1] + 0.5) / len(a[0]), indels=a[2] == "indels") for a in readable["adapters"]]
+    perms = list(itertools.permutations(range(len(specs))))[:6]
+    read = readable["read"]
+    return dict(id=0, prefix=prefix, r=codes(read),
+                ads=[dict(seq=codes(s["seq"]), k=s["k"], indels=s["indels"]) for s in specs],
+                res=lookup(build(prefix, specs, perms[0]), perms[0], read, True),
+                seqres=lookup(build(prefix, specs, perms[0]), perms[0], read, False),
+                perms=[lookup(build(prefix, specs, p), p, read, True) for p in perms[1:]], readable=readable)
+
+
 def replay(ctx, path):
     rp = json.load(open(path))
-    print(json.dumps(rp["observation"], indent=1)[:3000])
-    ctx.violation(rp["clause"], rp["signature"], rp["observation"])
+    o = rp["observation"]
+    e = reobserve(dict(kind=o["kind"], read=o["read"], adapters=o["adapters"]))
+    judge(ctx, [e])
+    if not ctx.violations:
+        print("note: a single fresh look-up of the stored read no longer violates the clause "
+              "(violations that depend on earlier look-ups through the same index need the full run)")
